@@ -225,7 +225,7 @@ fn corpus_file(ctx: &Ctx) -> Option<(Vec<u8>, String)> {
     } else {
         let si = ctx.pick("scene", crate::scenes::N_SCENES);
         let scene = crate::scenes::scene(si);
-        let k = Knobs { packets: true, non_data_packets: true, gaps: true, order: true, max_packets: 2, ..Knobs::NONE };
+        let k = Knobs { packets: true, non_data_packets: true, gaps: true, order: true, xml_lexical: true, max_packets: 2, ..Knobs::NONE };
         let (enc, _) = model_file(ctx, &scene, k)?;
         Some((enc.bytes, format!("scene {si} layout {:?}", enc.notes)))
     }
@@ -416,5 +416,42 @@ pub fn t3_unpack(ctx: &Ctx) {
     }
     ctx.count_n("unpack:files-compared", expect_files.len() as u64);
     ctx.observe_u64(explore::fnv(&b));
+    ctx.nontrivial();
+}
+
+/// T2b: directory mode of e57-check-crc: files a.e57, b.e57, sub/c.E57 and a non-E57 file; none or
+/// exactly one of them damaged; success exactly when every E57 file is valid
+pub fn t2_check_crc_dir(ctx: &Ctx) {
+    let damaged = ctx.pick("damaged-file", 4); // 0 none, 1 a, 2 b, 3 sub/c
+    let kind = ctx.pick("damage", 2); // payload / checksum
+    let order = ctx.pick("file-set", 3);
+    let files: Vec<Vec<u8>> = (0..3).map(|i| crate::c07::file((i + order) % crate::c07::N_FILES)).collect();
+    let wd = WorkDir::new("dir");
+    let d = wd.path("in");
+    let _ = std::fs::create_dir_all(d.join("sub"));
+    let names = ["a.e57", "b.e57", "sub/c.E57"];
+    let mut all_valid = true;
+    for (i, n) in names.iter().enumerate() {
+        let mut b = files[i].clone();
+        if damaged == i + 1 {
+            let pg = b.len() / 1024 - 1;
+            b[pg * 1024 + if kind == 0 { 100 } else { 1021 }] ^= 0x40;
+        }
+        all_valid &= E57Reader::validate_crc(Dev::new(b.clone())).is_ok();
+        if std::fs::write(d.join(n), &b).is_err() {
+            return;
+        }
+    }
+    let _ = std::fs::write(d.join("notes.txt"), b"not an e57 file");
+    ctx.describe(|| format!("e57-check-crc on a directory with {names:?}, damaged file index {damaged} (0 = none), damage kind {kind}"));
+    let Some((ok, _, err)) = run_tool(ctx, "e57-check-crc", &d) else { return };
+    if ok != all_valid {
+        ctx.violation(
+            format!("{P}/check-crc-directory-verdict"),
+            format!("e57-check-crc on a directory exits with success = {ok} although 'all files valid' = {all_valid} (damaged file index {damaged}); stderr: {err}"),
+        );
+        return;
+    }
+    ctx.observe_u64((damaged * 10 + kind * 3 + order) as u64);
     ctx.nontrivial();
 }
